@@ -137,7 +137,8 @@ class NCDomain(BaseDomain):
             sqrt=lambda v: P(v).sqrt() if not isinstance(v, Opaque) else v, abs=lambda v: abs(v),
             finfo=lambda t=None: Namespace("finfo", eps=2.220446049250313e-16),
             random=Namespace("np.random", randn=d.rng_randn, seed=lambda *a: None),
-            stack=d.np_stack, moveaxis=d.np_moveaxis, inf=float("inf"), isfinite=lambda v: UNKNOWN("isfinite"),
+            stack=d.np_stack, moveaxis=d.np_moveaxis, inf=float("inf"),
+            add=d._ufunc_out(operator.add), subtract=d._ufunc_out(operator.sub), multiply=d._ufunc_out(operator.mul), isfinite=lambda v: UNKNOWN("isfinite"),
             allclose=lambda *a, **k: UNKNOWN("allclose"),
             transpose=d.np_transpose, conjugate=d.np_conj, conj=d.np_conj,
         )
@@ -165,6 +166,22 @@ class NCDomain(BaseDomain):
         if all(isinstance(x, RandPlane) for x in xs) and axis == -1:
             return RandStack(list(xs))
         raise Unsupported("np.stack in the matrix-word domain")
+
+    def _ufunc_out(self, op):
+        """np.add / np.subtract / np.multiply(a, b[, out=target]) on matrix words: with out= the TARGET object takes the value
+        (matrix words are immutable values here: the result is returned and must be used through its name; an out= target that is
+        read again under its own name afterwards is not representable)"""
+        def f(a, b, out=None, **k):
+            if k:
+                raise Unsupported(f"np.{op.__name__}: keywords {sorted(k)}")
+            r = self.binop(self._interp, op, a, b, None)
+            if out is None:
+                return r
+            if isinstance(out, QM) and isinstance(r, QM):
+                out.nc, out.shape, out.kind = r.nc, r.shape, r.kind      # in-place update of the matrix-word object
+                return out
+            raise Unsupported("out= target in the matrix-word domain")
+        return f
 
     def np_moveaxis(self, a, src, dst):
         # one draw of shape (4, n, r) whose leading axis is moved last = four independent Gaussian planes stacked on the last axis
